@@ -732,7 +732,7 @@ func (s *clientSocket) emit(
 	}
 
 	if s.config.Retries > 0 && !fromQueue && !volatile {
-		s.packetQueue.addToQueue(&header, v)
+		s.packetQueue.addToQueue(&header, v, timeout)
 		return
 	}
 
